@@ -1929,6 +1929,9 @@ class Interp:
         if isinstance(obj, (VFunc, SpecCallable)):
             obj.attrs[name] = value
             return
+        if isinstance(obj, VClass) and obj.node is not None and not obj.builtin:
+            obj.attr_cache[name] = value  # class attribute set from outside (`setattr(cls, name, value)`)
+            return
         if isinstance(obj, Opaque):
             fq = self.opaque_member(obj, "__setattr__:" + name)
             c = self.reg.get(fq)
